@@ -133,6 +133,20 @@ theorem pgdb_returns_positive (d : Nat) (eigh : M ℂ → List ℂ × M ℂ) (he
         (alphas.map Complex.ofReal) (pgdbInit d)).toMatN (d * d)).PosSemidef :=
   pgdb_posSemidef d eigh he stop grad muInv alphas hal
 
+/-- … in particular with the step sizes the code's line search produces: `alpha = 0.5`, halved `j`
+more times (`0.5^(j+1)`), whatever the numbers `j` of halvings the cost comparisons decide -/
+theorem pgdb_returns_positive_halvings (d : Nat) (eigh : M ℂ → List ℂ × M ℂ)
+    (he : EighShapes eigh (d * d)) (stop : M ℂ → Nat) (grad : M ℂ → M ℂ) (muInv : ℂ)
+    (halvings : List Nat) :
+    ((pgdbRun (fun X => cptpProj (tpProj d) (cpProjWith eigh) (d * d) (stop X) X) grad muInv
+        ((halvings.map fun j => ((1 / 2 : ℝ) ^ (j + 1))).map Complex.ofReal)
+        (pgdbInit d)).toMatN (d * d)).PosSemidef := by
+  apply pgdb_returns_positive d eigh he stop grad muInv
+  intro a ha
+  simp only [List.mem_map] at ha
+  obtain ⟨j, _, rfl⟩ := ha
+  exact ⟨by positivity, pow_le_one₀ (by norm_num) (by norm_num)⟩
+
 /-! ### non-vacuity -/
 
 /-- the hypotheses of `cp_proj_moreau` are met by a concrete indefinite matrix:
